@@ -2,7 +2,7 @@
    alone O db ban fuel t tmsg s is the pipeline on the single reaction s. *)
 From Coq Require Import String ZArith List Bool.
 From SynRBL Require Import Base.Dict Model.Comp Model.Matcher Model.Pipeline
-  Proofs.PipelineProofs Proofs.RowLocal Proofs.Balanced Proofs.RunLevel.
+  Model.Batch Proofs.PipelineProofs Proofs.RowLocal Proofs.Balanced Proofs.RunLevel Proofs.BatchProofs Proofs.StatsAdd.
 Import ListNotations.
 Open Scope string_scope.
 
@@ -26,13 +26,31 @@ Theorem C06_rule_based_is_row_local : forall O db ban fuel rows,
   ids_from 0 rows -> rule_based O db ban fuel rows = map (rb_row O db ban fuel) rows.
 Proof. exact rule_based_is_map. Qed.
 
-(* Kept visible, not proved: additivity of the seven counters over a partition into batches
-   (each counter is a count over a mapped list, so it follows from the map form; the harness
-   checks it on random partitions).  What the model cannot exhibit: wall-clock effects -- MCS
-   time-outs under load, worker scheduling in joblib process pools; the oracles are functions of
-   the row's strings, which is exactly the assumption timing can break (rows whose recorded
-   oracle answers conflict are reported as timing_unstable). *)
+(* second sentence of the property.  The seven counters of a completed batch are a function of its input
+   list (sums of per-reaction indicators) ... *)
+Theorem C06_statistics_are_a_function_of_the_input : forall O db ban fuel t tmsg ins rows st,
+  run O db ban fuel t tmsg ins = Done (rows, st) -> st = stats_fun O db ban fuel t ins.
+Proof. exact run_stats_are_a_function. Qed.
+(* ... hence additive over concatenation ... *)
+Theorem C06_statistics_additive : forall O db ban fuel t tmsg a b ra sa rb sb rab sab,
+  run O db ban fuel t tmsg a = Done (ra, sa) -> run O db ban fuel t tmsg b = Done (rb, sb) ->
+  run O db ban fuel t tmsg (a ++ b)%list = Done (rab, sab) -> sab = add_stats sa sb.
+Proof. exact run_stats_additive. Qed.
+(* ... and the merged statistics of Balancer.rebalance do not depend on the batch size / partition: for every
+   batch size they are the statistics of the whole input as one batch (well-formed inputs, completed batches) *)
+Theorem C06_statistics_partition_independent : forall O db ban fuel t tmsg,
+  (forall b, b <> [] -> Forall (well_formed O) b -> exists rows st, run O db ban fuel t tmsg b = Done (rows, st)) ->
+  forall bs ins, (forall n, bs = Some n -> 0 < n) -> Forall (well_formed O) ins ->
+  snd (rebalance (run O db ban fuel t tmsg) bs ins) = stats_fun O db ban fuel t ins.
+Proof. exact rebalance_stats_partition_independent. Qed.
+
+(* What the model cannot exhibit: wall-clock effects -- MCS time-outs under load, worker scheduling in joblib
+   process pools; the oracles are functions of the row's strings, which is exactly the assumption timing can
+   break (rows whose recorded oracle answers conflict are reported as timing_unstable). *)
 
 Print Assumptions C06_rows_are_alone_results.
 Print Assumptions C06_row_independent_of_batch.
 Print Assumptions C06_rule_based_is_row_local.
+Print Assumptions C06_statistics_are_a_function_of_the_input.
+Print Assumptions C06_statistics_additive.
+Print Assumptions C06_statistics_partition_independent.
